@@ -824,7 +824,7 @@ func runC17(c *gen.Ctx) error {
 		nResp = 12000
 	}
 	for i := 0; i < nResp; i++ {
-		in := c17RawRespIn{Proto: "h1", Status: gen.Pick(r, []uint32{0, 0, 200, 200, 201, 400, 404, 415, 500, 503, 599, 299}),
+		in := c17RawRespIn{Proto: "h1", Status: gen.Pick(r, []uint32{0, 0, 200, 200, 201, 400, 404, 415, 500, 503, 599, 299, 600, 799, 999}),
 			Headers: c17RandHdrs(r, c17HdrNames, 4), Trailers: c17SameSpelling(c17RandHdrs(r, c17TrlNames, 3)), Body: c17RandBody(r, i%7 == 0),
 			Handler: []c17Hdr{{N: "X-Handler-Set", V: []string{"h"}}}, Pre: []c17OpJ{}, Post: c17RandHandlerOps(r, 3)}
 		if i%2 == 1 {
@@ -931,7 +931,7 @@ func runC17(c *gen.Ctx) error {
 	for i := 0; i < nSrv; i++ {
 		in := c17RawSrvIn{Proto: "h1", Proc: gen.Pick(r, []string{"Unary", "Unary", "ServerStream", "ClientStream"}), Codec: gen.Pick(r, []string{"proto", "json"}),
 			Origin: gen.Pick(r, []string{"", "https://verif.example", "http://localhost:8080"}),
-			Status: gen.Pick(r, []uint32{0, 200, 200, 201, 400, 404, 415, 500, 503}), Body: c17RandBody(r, false)}
+			Status: gen.Pick(r, []uint32{0, 200, 200, 201, 400, 404, 415, 500, 503, 600, 799, 999}), Body: c17RandBody(r, false)}
 		if i%2 == 1 {
 			in.Proto = "h2c"
 		}
@@ -957,5 +957,9 @@ func runC17(c *gen.Ctx) error {
 		jobs = append(jobs, in)
 	}
 	c.DoParallel("rawsrv", jobs, 8)
+	// ---- (h)-(l): histories in one process and the whole status range (c17seq.go)
+	runC17Seq(c)
+	runC17Status(c)
+	runC17RespSeq(c)
 	return nil
 }
